@@ -174,6 +174,11 @@ func init() {
 					strings.Contains(s, "userProcs")
 			}},
 		{"c12Skel_Enqueue", "martian/core/jobmanager_local.go", "LocalJobManager", "Enqueue", enqueueKeep},
+		// where the limits come from (Martian/SemaphoreConfig.lean); the sole static tie: strict
+		{"c12Skel_NewLocalJobManager", "martian/core/jobmanager_local.go", "", "NewLocalJobManager",
+			func(s string) bool { return strings.Contains(s, "self.set") || strings.Contains(s, "verifyJobManager") }},
+		{"c12Skel_setMaxCores", "martian/core/jobmanager_local.go", "LocalJobManager", "setMaxCores", nil},
+		{"c12Skel_setMaxMem", "martian/core/jobmanager_local.go", "LocalJobManager", "setMaxMem", nil},
 		// the environment sampling that feeds the availability updates: which quantities go
 		// into which Update* call (the values themselves are environment input)
 		{"c12Skel_refreshResources", "martian/core/jobmanager_local.go", "LocalJobManager", "refreshResources",
@@ -207,6 +212,9 @@ func init() {
 					return "", nil, err
 				}
 				fd := findMethod(f, sp.recv, sp.fn)
+				if sp.recv == "" {
+					fd = findFunc(f, sp.fn)
+				}
 				if fd == nil || fd.Body == nil {
 					return "", nil, fmt.Errorf("%s.%s not found", sp.recv, sp.fn)
 				}
